@@ -95,6 +95,8 @@ def c02(tier):
     c = new_check("C02", tier)
     for model, cfg in cfgs("mc/MC_Parts", tier, ["", "iri"]):
         mc_replay(c, model, cfg, "every valid reference within the bound, with its RFC decomposition")
+    for model, cfg in cfgs("mc/MC_Compose", tier, [""]):
+        mc_replay(c, model, cfg, "long structured references composed from component vocabularies (section 3 side conditions)")
     drive_parse_and_validate(c, tier, "random long multi-byte references: components reported by the real accessors judged by TLC")
     return c.finish(rule="all valid (I)RI-references of bounded length over a delimiter-rich alphabet, enumerated by "
                          "walking the derivative automaton; each distinct text is one case",
@@ -107,6 +109,8 @@ def c03(tier):
         mc_replay(c, model, cfg, "every valid authority within the bound, with its section 3.2 decomposition")
     for model, cfg in cfgs("mc/MC_Parts", tier, [""]):
         mc_replay(c, model, cfg, "authorities embedded in references")
+    for model, cfg in cfgs("mc/MC_Compose", tier, [""]):
+        mc_replay(c, model, cfg, "composed references: IP-literals with user info and port, empty parts, multi-byte hosts")
     return c.finish(rule="all valid authorities of bounded length (IP-literals included), stand-alone and embedded",
                     assumptions=TRUST)
 
@@ -117,6 +121,8 @@ def c20(tier):
         mc_replay(c, model, cfg, "byte ranges of components vs. pointer offsets of returned slices; allocation deltas")
     for model, cfg in cfgs("mc/MC_Auth", tier, [""]):
         mc_replay(c, model, cfg, "authority sub-component ranges")
+    for model, cfg in cfgs("mc/MC_Compose", tier, [""]):
+        mc_replay(c, model, cfg, "composed long references: byte ranges with multi-byte characters in earlier components")
     for model, cfg in cfgs("mc/MC_Paths", tier, [""]):
         mc_replay(c, model, cfg, "segments, first/last/file name/directory/parent: sub-slices of the input, no allocation "
                                  "(paths of up to 33 segments, beyond any inline buffer)")
@@ -361,6 +367,8 @@ def c16(tier):
         c.add_trace(n, bad, tr, "recorded suffix results judged by TLC (existence, remaining segments, query/fragment)")
     for model, cfg in cfgs("mc/MC_Parts", tier, ["", "iri"]):
         mc_replay(c, model, cfg, "base() of every valid reference within the bound")
+    for model, cfg in cfgs("mc/MC_Compose", tier, [""]):
+        mc_replay(c, model, cfg, "base() of composed long references")
     return c.finish(rule="suffix: pairs of paths / URIs over {a, b, '', ., .., %61}; base: every enumerated valid reference",
                     assumptions=TRUST)
 
@@ -376,7 +384,10 @@ def c13(tier):
     c.add_tlc(r3, "the implementation's cached DFAs accept exactly the RFC languages the facts above are about (so the "
                   "facts hold of what the code accepts)")
     for model, cfg in cfgs("mc/MC_Parts", tier, ["", "iri"]):
-        mc_replay(c, model, cfg, "conversions between the four kinds on every enumerated valid reference (borrowed and owned)")
+        mc_replay(c, model, cfg, "the complete conversion lattice (as_*, into_*, try_into_*, From, TryFrom, Borrow; borrowed and "
+                                 "owned) on every enumerated valid reference")
+    for model, cfg in cfgs("mc/MC_Compose", tier, [""]):
+        mc_replay(c, model, cfg, "the conversion lattice on composed long references")
     for model, cfg in cfgs("mc/MC_Editor", tier, [""]):
         mc_replay(c, model, cfg, "editing results identical in both families on ASCII input")
     for model, cfg in cfgs("mc/MC_Resolve", tier, [""]):
